@@ -248,9 +248,47 @@ class Inliner:
             return self._first_helper_call(test.left)
         return None
 
+    def _comprehension_loop(self, stmt: ast.stmt, caller_names: Set[str]) -> Optional[List[ast.stmt]]:
+        """ `return [x for x in xs if not _fresh(x)]` (also assigned to a name): when the filter calls a helper the
+            reference tree did not have, the comprehension is spelled as the loop it abbreviates, so that the helper's
+            body can take the place of the call """
+        value = getattr(stmt, "value", None)
+        if not (isinstance(stmt, (ast.Return, ast.Assign)) and isinstance(value, ast.ListComp) and len(value.generators) == 1):
+            return None
+        gen = value.generators[0]
+        if gen.is_async or len(gen.ifs) != 1 or not isinstance(gen.target, ast.Name):
+            return None
+        first = self._first_helper_call(gen.ifs[0])
+        if first is None or self._callee(first)[0].split(".")[-1] not in getattr(self, "fresh_helpers", ()):
+            return None
+        if isinstance(stmt, ast.Assign) and not (len(stmt.targets) == 1 and isinstance(stmt.targets[0], ast.Name)):
+            return None
+        self._if_counter = getattr(self, "_if_counter", 0) + 1
+        acc = stmt.targets[0].id if isinstance(stmt, ast.Assign) else f"kept__comp{self._if_counter}"  # type: ignore[attr-defined]
+        var = gen.target.id
+        new_var = var if var not in caller_names else f"{var}__comp{self._if_counter}"
+        renamer = _Rename({var: new_var}, {})
+        elt = renamer.visit(clone(value.elt))
+        cond = renamer.visit(clone(gen.ifs[0]))
+        init = ast.Assign(targets=[ast.Name(id=acc, ctx=ast.Store())], value=ast.List(elts=[], ctx=ast.Load()))
+        append = ast.Expr(value=ast.Call(func=ast.Attribute(value=ast.Name(id=acc, ctx=ast.Load()), attr="append", ctx=ast.Load()),
+                                         args=[elt], keywords=[]))
+        loop = ast.For(target=ast.Name(id=new_var, ctx=ast.Store()), iter=clone(gen.iter),
+                       body=[ast.If(test=cond, body=[append], orelse=[])], orelse=[])
+        out: List[ast.stmt] = [init, loop]
+        if isinstance(stmt, ast.Return):
+            out.append(ast.Return(value=ast.Name(id=acc, ctx=ast.Load())))
+        for node in out:
+            ast.copy_location(node, stmt)
+            ast.fix_missing_locations(node)
+        return out
+
     def _stmt(self, stmt: ast.stmt, caller_names: Set[str], level: int) -> List[ast.stmt]:
         call: Optional[ast.Call] = None
         sink = None
+        as_loop = self._comprehension_loop(stmt, caller_names)
+        if as_loop is not None:
+            return self._block(as_loop, caller_names, level)
         if isinstance(stmt, ast.If):
             # `if _helper(x) and ...:` - the helper's value is computed first anyway: name it, then test the name
             first = self._first_helper_call(stmt.test)
